@@ -401,9 +401,25 @@ def alt_miss(repo):
         action = '.returnNone'
     else:
         raise ExtractError('_SO_fetchAlternateID: mixed miss behaviour %r' % (kinds,))
-    find = ast.unparse(find_func(cls, '_findAlternateID'))
-    if 'condition = sqlbuilder.AND(*[getattr(cls.q, _n) == _v for _n, _v in zip(name, new_value)])' not in find:
+    # `_findAlternateID` builds `AND(*conditions)` with, per (name, converted value): IS NULL for None, else
+    # `field = value` (the model's `eqOrNull`)
+    find_fn = find_func(cls, '_findAlternateID')
+    want_loop = ("for _n, _v in zip(name, new_value):\n"
+                 "    if _v is None:\n"
+                 "        conditions.append(sqlbuilder.ISNULL(getattr(cls.q, _n)))\n"
+                 "    else:\n"
+                 "        conditions.append(sqlbuilder.SQLOp('=', getattr(cls.q, _n), _v))\n")
+    stmts = strip_doc(find_fn.body)
+    loops = [i for i, st in enumerate(stmts) if isinstance(st, ast.For) and ast.unparse(st.target) == '(_n, _v)']
+    if len(loops) != 1 or not _same_stmt(stmts[loops[0]], want_loop):
+        raise ExtractError('_findAlternateID: condition loop changed')
+    i = loops[0]
+    if i == 0 or not _same_stmt(stmts[i - 1], 'conditions = []') or i + 1 >= len(stmts) \
+            or not _same_stmt(stmts[i + 1], 'condition = sqlbuilder.AND(*conditions)'):
         raise ExtractError('_findAlternateID: condition changed')
+    if sum(1 for n in ast.walk(find_fn) if isinstance(n, ast.Name) and n.id in ('conditions', 'condition')
+           and isinstance(n.ctx, ast.Store)) != 2:
+        raise ExtractError('_findAlternateID: condition rebound')
     # the unique-index lookup ends in selectBy(**kw).getOne() without a default
     idx = find_func(find_class(parse(repo, 'sqlobject/index.py'), 'SODatabaseIndex'), 'get')
     last = idx.body[-1]
